@@ -119,7 +119,9 @@ class DiscreteTimeInterpreter(TimeInterpreter):
         b = b * self.ast.U[b_unit]
         e = e * self.ast.U[e_unit]
 
-        sp = Fraction(self.sampling_period * self.ast.U[self.sampling_period_unit])
+        # the period is the number the user wrote: 0.067 (s) is 67/1000, not the product of two
+        # floats (0.067 * 1e9 is 67000000.00000001, and then no bound is a whole number of periods)
+        sp = Fraction(str(self.sampling_period)) * Fraction(self.ast.U[self.sampling_period_unit])
         b = b / sp
         e = e / sp
 
